@@ -25,4 +25,14 @@ def main(argv=None):
 
 
 if __name__ == "__main__":
-    sys.exit(main())
+    try:
+        rc = main()
+    except SystemExit:
+        raise
+    except BaseException as e:  # noqa: BLE001 - a crash of the machinery is never a verdict about the code: inconclusive
+        import traceback
+
+        traceback.print_exc()
+        print(f"INCONCLUSIVE harness crashed: {type(e).__name__}: {e}")
+        rc = 2
+    sys.exit(rc)
